@@ -48,3 +48,23 @@ Example C18_nonvacuous :
               OExpireAll 300; ORead [1%N] false 400; ODelete [1%N]; ODelete [1%N]; ODeleteAll] in
   acct_run hash (mkBcfg 0 false MostExpired 0 0) b0 ops = (4, 1, 1).
 Proof. vm_compute. reflexivity. Qed.
+
+(* ---- tie to the source: the function bodies below are re-translated from /repo on every run
+   (harness/cmd/gofunc -> theories/Generated/Funcs.v, interpreted by theories/GoIR.v); the statements say that
+   the translated source computes what the model assumes, for ALL inputs. A change of the source that alters
+   the computed function breaks the proof. ---- *)
+From Cache Require Import GoIR TieRead.
+From Cache.Generated Require Import Funcs.
+
+(* PrepareRead emits exactly one of cache_miss / cache_expired / cache_hit (when a tracker is attached), the one
+   the model's b_read emits *)
+Theorem C18_source_read_metrics : forall c now has_log has_stat e,
+  run_prepare_read fn_Trait_PrepareRead false c now has_log has_stat true e = Some (model_found c now e has_stat) /\
+  run_prepare_read fn_TraitOf_PrepareRead true c now has_log has_stat true e = Some (model_found c now e has_stat) /\
+  run_prepare_read fn_Trait_PrepareRead false c now has_log has_stat false e = Some (model_missing has_stat e) /\
+  run_prepare_read fn_TraitOf_PrepareRead true c now has_log has_stat false e = Some (model_missing has_stat e).
+Proof.
+  intros; repeat split; [exact (tie_prepare_read_found _ _ _ _ _) | exact (tie_prepare_read_of_found _ _ _ _ _)
+                        | exact (tie_prepare_read_missing _ _ _ _ _) | exact (tie_prepare_read_of_missing _ _ _ _ _)].
+Qed.
+Print Assumptions C18_source_read_metrics.
